@@ -1,6 +1,7 @@
 """Contracts for votekit/utils.py"""
 from pyvc.api import *
 from specs.base import *
+from specs.stv import fp_sorted
 
 
 @contract("utils.py", "validate_score_vector", props=("C04", "C20"))
@@ -30,7 +31,7 @@ class tiebreak_set:
         return tiebreak != "random" and (profile is None or (tiebreak != "first_place" and tiebreak != "borda"))
 
     def ensures(r_set, profile, tiebreak, result):
-        return lin(result, r_set)
+        return lin(result, r_set) and implies(tiebreak == "first_place" and profile is not None, fp_sorted(result, profile))
 
 
 @contract("utils.py", "elect_cands_from_set_ranking", props=("C01", "C04", "C05", "C10", "C20"))
